@@ -244,7 +244,9 @@ def gen_map(g):
         c["a2"] = g.choice([0.04, 0.05, 0.1 * g.random()])
         c["b"] = g.choice([1.5, 1.0, 0.5 + g.random()])
         c["c"] = g.choice([0.001, 0.1, 0.0])
-        k0 = g.randint(1, order)
+        # an initial condition may also cover the first returned sample (entry number `order` of the buffer):
+        # the series then starts at x0[order] and the recurrence goes on from there
+        k0 = g.randint(1, order + 1)
         c["x0"] = [round(0.3 * g.random(), 3) for _ in range(k0)]
         c["u"] = [0.5 * g.random() for _ in range(c["n"] + order)]
     return c
@@ -274,7 +276,7 @@ def map_model_case(c, series):
         return {"kind": "map_steps", "regime": "E", "fn": "henon", "a": q(c["a"]), "b": q(c["b"]),
                 "series": [[q(v) for v in row] for row in series]}
     order = c["order"]
-    head = list(c["x0"]) + [0.0] * (order - len(c["x0"]))
+    head = (list(c["x0"]) + [0.0] * (order - len(c["x0"])))[:order]
     full = head + [float(v) for v in series.reshape(-1)]
     return {"kind": "map_steps", "regime": "E", "fn": "narma", "order": order, "a1": q(c["a1"]),
             "a2": q(c["a2"]), "b": q(c["b"]), "c": q(c["c"]), "y": [q(v) for v in full],
@@ -312,6 +314,10 @@ def check_map(ctx, c, series, mo, full=None):
                 return ("oracle", f"state {i + 1} = {series[i + 1].tolist()} is not the Henon image "
                                   f"{[float(v) for v in ex]} of state {i}", None)
     else:
+        first = float(c["x0"][c["order"]]) if len(c["x0"]) > c["order"] else 0.0
+        if float(series[0, 0]) != first:
+            return ("oracle", f"narma(order={c['order']}, x0 of {len(c['x0'])} values): the series starts at "
+                              f"{float(series[0, 0])!r}, the initial condition says {first!r}", None)
         ts, impl, doc = m["t"], m["impl"], m["doc"]
         bad_impl = None
         bad_doc = None
